@@ -16,7 +16,7 @@ FlagRecs == [dynamic : BOOLEAN, absolute : BOOLEAN, ifunc : BOOLEAN, interposabl
              got : BOOLEAN, plt : BOOLEAN, tlsoff : BOOLEAN, tlsmod : BOOLEAN, tlsdesc : BOOLEAN, ifuncgot : BOOLEAN]
 NoFlags == [dynamic |-> FALSE, absolute |-> FALSE, ifunc |-> FALSE, interposable |-> FALSE, export |-> FALSE,
             got |-> FALSE, plt |-> FALSE, tlsoff |-> FALSE, tlsmod |-> FALSE, tlsdesc |-> FALSE, ifuncgot |-> FALSE]
-AnyCase == CHOOSE x \in SiteCases : TRUE
+AnyCase == [sym |-> "global_d", ref |-> "abs64", out |-> "pie", secw |-> TRUE, relax |-> TRUE, relr |-> FALSE]
 
 Init ==
     /\ phase = "start" /\ alloc = Zero /\ used = Zero
